@@ -32,6 +32,14 @@ impl<'a> Sampler<'a> {
                                 ok = false;
                                 break;
                             }
+                            Sym::Star(_) | Sym::Opt(_) => {}
+                            Sym::Plus(j) => {
+                                if min_len[*j] == usize::MAX {
+                                    ok = false;
+                                    break;
+                                }
+                                len += min_len[*j];
+                            }
                         }
                     }
                     if ok && len < min_len[i] {
@@ -63,6 +71,13 @@ impl<'a> Sampler<'a> {
                     len += self.min_len[*j];
                 }
                 Sym::Recover => return None,
+                Sym::Star(_) | Sym::Opt(_) => {}
+                Sym::Plus(j) => {
+                    if self.min_len[*j] == usize::MAX {
+                        return None;
+                    }
+                    len += self.min_len[*j];
+                }
             }
         }
         Some(len)
@@ -88,6 +103,20 @@ impl<'a> Sampler<'a> {
                 Sym::T(t) => out.push(*t),
                 Sym::N(j) => self.expand(rng, *j, budget, depth + 1, out),
                 Sym::Recover => {}
+                Sym::Star(j) | Sym::Plus(j) | Sym::Opt(j) => {
+                    if !self.productive(*j) {
+                        continue;
+                    }
+                    let (lo, hi) = match s {
+                        Sym::Star(_) => (0u64, 3u64),
+                        Sym::Plus(_) => (1, 3),
+                        _ => (0, 1),
+                    };
+                    let n = if depth > 12 { lo } else { rng.range(lo, hi) };
+                    for _ in 0..n {
+                        self.expand(rng, *j, budget, depth + 1, out);
+                    }
+                }
             }
         }
     }
